@@ -52,6 +52,8 @@ def main():
     ap.add_argument("--seeded", action="store_true")
     ap.add_argument("--only", default="")
     ap.add_argument("--jobs", default="8")
+    ap.add_argument("--own-only", action="store_true", help="check only the property named in meta.json")
+    ap.add_argument("--thorough", action="store_true")
     a = ap.parse_args()
     path = os.path.join(VERIF, "selftest", "results.json")
     results = json.load(open(path)) if os.path.exists(path) else {}
@@ -72,11 +74,59 @@ def main():
             if a.only and a.only != name:
                 continue
             meta = json.load(open(os.path.join(os.path.dirname(d), "meta.json")))
-            props = [meta["property"]] + meta.get("also_check", [])
-            r = run_with_patch(d, props, a.jobs)
-            caught = [p for p, v in r.items() if v["exit"] == 1]
-            results["seeded/" + name] = {"expected": "exit 1 for " + meta["property"], "caught_by": caught, "runs": r}
-            print("seeded", name, "CAUGHT by " + ",".join(caught) if caught else "MISSED", {k: v["exit"] for k, v in r.items()})
+            # run every obligation anchored in a patched file once (pseudo-property ALL), then attribute each failed check to
+            # properties exactly as a per-property run would (tags, C02 class filter); fall back to the seed's own property.
+            patched = set(l[6:].strip() for l in open(d) if l.startswith("+++ b/"))
+            sys.path.insert(0, VERIF)
+            sys.path.insert(0, os.path.join(VERIF, "tools"))
+            import registry
+            import check as chk
+            obs = [o for o in registry.OBLIGATIONS if o["anchor"] in patched]
+            if not obs:
+                r = run_with_patch(d, [meta["property"]], a.jobs)
+                caught = [p for p, v in r.items() if v["exit"] == 1]
+                results["seeded/" + name] = {"expected": "exit 1 for " + meta["property"], "caught_by": caught, "failing_obligations": [],
+                                             "note": "no obligation is anchored in the patched files; own property run", "runs": r}
+                print("seeded", name, "CAUGHT by " + ",".join(caught) if caught else "MISSED (no obligation in patched files)")
+                continue
+            wt = tempfile.mkdtemp(prefix="stest."); os.rmdir(wt)
+            subprocess.check_call(["git", "-C", "/repo", "worktree", "add", "-q", "--detach", wt, "HEAD"])
+            out = tempfile.mkdtemp(prefix="stest_out.")
+            try:
+                subprocess.check_call(["git", "-C", wt, "apply", d])
+                tier = "thorough" if a.thorough else "quick"
+                rr = subprocess.run([os.path.join(VERIF, "check"), "ALL", "--tier", tier, "--jobs", str(a.jobs), "--only", ",".join(o["id"] for o in obs)],
+                                    cwd=VERIF, env=dict(os.environ, VERIF_REPO=wt, VERIF_OUT=out), capture_output=True, text=True)
+                by_prop = {}
+                failing = []
+                byid = {o["id"]: o for o in obs}
+                for f in glob.glob(os.path.join(out, "replay", "ALL__*.json")):
+                    rp = json.load(open(f))
+                    o = byid.get(rp["obligation"])
+                    if not o:
+                        continue
+                    failing.append(rp["obligation"])
+                    for c_ in rp["failed_checks"]:
+                        kind, tags = chk.classify_check(c_)
+                        for pp in o["props"]:
+                            qp = o.get("quick_props")
+                            in_quick = o.get("tier", "quick") == "quick" and (qp is None or pp in qp)
+                            if chk.attributable(pp, o, c_, tags):
+                                by_prop.setdefault(pp, {"quick": False, "obligations": set()})
+                                by_prop[pp]["obligations"].add(o["id"])
+                                by_prop[pp]["quick"] |= in_quick
+                und = [l[:200] for l in rr.stderr.splitlines() if l.startswith("UNDECIDED")][:6]
+            finally:
+                subprocess.call(["git", "-C", "/repo", "worktree", "remove", "--force", wt])
+                subprocess.call(["rm", "-rf", out])
+            caught = sorted(by_prop)
+            results["seeded/" + name] = {"expected": "exit 1 for " + meta["property"], "exit": rr.returncode, "caught_by": caught,
+                                         "caught_in_quick_tier": sorted(p for p, v in by_prop.items() if v["quick"]),
+                                         "failing_obligations": sorted(set(failing)), "undecided": und,
+                                         "obligations_run": len(obs), "tier": tier}
+            own = meta["property"]
+            print("seeded", name, ("CAUGHT own=%s by %s via %s" % (own in caught, ",".join(caught), ",".join(sorted(set(failing))[:4]))) if caught else "MISSED",
+                  "exit", rr.returncode, und[:2])
     json.dump(results, open(path, "w"), indent=1)
     return 0 if ok else 1
 
